@@ -218,6 +218,8 @@ def norm_model(c, out):
 
 # ---------------------------------------------------------------- the property, restated
 def oracle(c, out):
+    if c.get("idx"):
+        return idx_oracle(c, out)
     if c.get("multi"):
         return oracle_multi(c, out)
     r = canon_impl(c, out)
@@ -369,7 +371,101 @@ def oracle_multi(c, out):
     return None
 
 
+# ---------------------------------------------------------------- the route-target index of the VPN table (Vrf/Index.v)
+def gen_idx(rng):
+    """table updates of two destinations from up to four sources; a source is either plain (path identifier 0) or an
+    ADD-PATH source (identifiers 1, 2)"""
+    srcs = rng.sample([1, 2, 3, 4], rng.choice([2, 3, 4]))
+    ap = {s: (rng.random() < 0.3) for s in srcs}
+    if rng.random() < 0.5:
+        ap = {s: False for s in srcs}
+    ev = []
+    for _ in range(rng.choice([4, 8, 14, 20])):
+        s = rng.choice(srcs)
+        pid = rng.choice([1, 2]) if ap[s] else 0
+        key = rng.choice([5, 5, 6])
+        if rng.random() < 0.65:
+            ev.append(("a", s, key, pid, rng.choice([0, 10]), sorted(rng.sample([1, 2, 3, 4], rng.choice([0, 1, 1, 2, 3])))))
+        else:
+            ev.append(("w", s, key, pid))
+    return {"idx": True, "events": ev, "plain": not any(ap.values())}
+
+
+def idx_line(c):
+    return "idx (%s)" % " ".join("(a %d %d %d %d %s)" % (e[1], e[2], e[3], e[4], " ".join(map(str, e[5]))) if e[0] == "a" else "(w %d %d %d)" % e[1:] for e in c["events"])
+
+
+def idx_steps(out):
+    if not out.startswith("ok"):
+        return None
+    res = []
+    for st in simlib.parse_sx(out[2:]):
+        cands, rts = {}, {}
+        for it in st[1:]:
+            if it[0] == "cands":
+                for e in it[1:]:
+                    cands[int(e[0])] = [str(x) for x in e[1:]]
+            elif it[0] == "rt":
+                rts[int(it[1])] = sorted(str(x) for x in it[2:])
+        res.append((cands, rts))
+    return res
+
+
+def idx_oracle(c, out):
+    if out.startswith("panic"):
+        return ("index-panic", out[:200])
+    steps = idx_steps(out)
+    if steps is None or len(steps) != len(c["events"]):
+        return ("harness-error", out[:200])
+    live = {}                                    # (key, "src:pid") -> targets
+    for e, (cands, rts) in zip(c["events"], steps):
+        k = (e[2], "%d:%d" % (e[1], e[3]))
+        if e[0] == "a":
+            live[k] = set(e[5])
+        else:
+            live.pop(k, None)
+        for key in {kk for kk, _ in live} | set(cands):
+            want = sorted(sp for kk, sp in live if kk == key)
+            if sorted(cands.get(key, [])) != want:
+                return ("vpn-table-content", "destination %d holds %s, announced and not withdrawn: %s" % (key, cands.get(key), want))
+        for t in (1, 2, 3, 4):
+            want = []
+            for key, l in cands.items():
+                for i, sp in enumerate(l):
+                    # an ADD-PATH path is an entry of its own; of the paths without identifier only the selected one counts
+                    if t in live[(key, sp)] and (not sp.endswith(":0") or i == 0):
+                        want.append("%d:%s" % (key, sp))
+            if sorted(want) != rts.get(t, []):
+                missing = sorted(set(want) - set(rts.get(t, [])))
+                extra = sorted(set(rts.get(t, [])) - set(want))
+                mixed = "" if c["plain"] else "-with-add-path-sources"
+                return ("rt-index-" + ("misses-a-selected-path" if missing else "holds-a-stale-path") + mixed,
+                        "GetPathsByRT(%d) = %s after %s; the selected paths (and ADD-PATH paths) carrying it: %s" % (t, rts.get(t), e, sorted(want)))
+    return None
+
+
+def idx_model_line(c):
+    """the model takes the candidate lists as the table reports them (selection is C03's subject)"""
+    ups = []
+    live = {}
+    for e, (cands, _) in zip(c["events"], c["steps"]):
+        k = (e[2], "%d:%d" % (e[1], e[3]))
+        if e[0] == "a":
+            live[k] = e[5]
+        else:
+            live.pop(k, None)
+        ups.append("(%d %s)" % (e[2], " ".join("(%s %s)" % (sp.split(":")[0], " ".join(map(str, live.get((e[2], sp), [])))) for sp in cands.get(e[2], []))))
+    return "(idx (%s))" % " ".join(ups)
+
+
+def idx_norm(c, out):
+    steps = idx_steps(out)
+    return "error " + out[:100] if steps is None else json.dumps([r for _, r in steps], sort_keys=True)
+
+
 def shrink_candidates(c):
+    if c.get("idx"):
+        return
     ev = c["events"]
     for i in range(len(ev) - 1):
         if ev[i][0] in ("addvrf", "delvrf", "ce"):
@@ -387,6 +483,22 @@ def run(ctx):
                             more_cases=lambda: [gen_case(ctx.rng) for _ in range(n)],
                             correspondence_name="AddVrf/DeleteVrf/AddPath(VRF) + VPNv4 and RTC UPDATEs through propagateUpdate/filterpath/processRTCMembership vs Vrf.Model.step / vrf_view / to_global",
                             impl_spec=IMPL_SPEC, model_name="c17")
+    # the route-target index at the table level: the real TableManager vs Vrf.Index (model: sources without ADD-PATH)
+    okx, logx, implx = core.go_build("c17idx")
+    icases = [gen_idx(ctx.rng) for _ in range(ctx.scale(4000, 100000))]
+    if okx:
+        outs, err = core.run_lines(implx, [idx_line(c) for c in icases])
+        if not err:
+            for c, o in zip(icases, outs):
+                c["steps"] = idx_steps(o) or []
+    icases = [c for c in icases if c.get("steps") and len(c["steps"]) == len(c["events"])]
+    cov3 = core.differential(ctx, "c17", proof, icases, idx_line, oracle, norm_impl=idx_norm, norm_model=idx_norm, model_line_of=idx_model_line,
+                             model_applies=lambda c: c["plain"], nontrivial=lambda c: len(c["events"]) >= 4,
+                             correspondence_name="TableManager.Update / updateVPNIdx / GetPathsByRT vs Vrf.Index.istep / paths_by_rt",
+                             impl_spec=("c17idx", False, (), None), model_name="c17")
+    for k in ("evaluations", "distinct_nontrivial", "traces_validated_against_impl", "disagreements_checked"):
+        cov[k] = cov.get(k, 0) + cov3.get(k, 0)
+    cov.setdefault("further_families", []).append({"name": "route-target index (table level)", "evaluations": cov3.get("evaluations"), "sample": (cov3.get("samples") or [""])[0][:200]})
     pc = core.proof_coverage(proof)
     pc.update(cov)
     evc = {}
